@@ -16,10 +16,18 @@ EXPLANATION = (
     "where(labels == i). R3: phase_align indexes phase and value with the same per-cycle index set, evaluates the "
     "interpolant on the bin centres of define_hist_bins(0, 2pi, npoints) and stores it in the column of that cycle. "
     "R4: bin_by_phase's loop covers every allocated row: for nbins in {2,3,5} every digitize class in(k), "
-    "k = 1..nbins, is selected by exactly one loop index and written to row k-1. L1: library attributes on these "
-    "paths resolve. Not decided: interpolation error for non-linear profiles.")
+    "k = 1..nbins, is the content of row k-1 (last writer of a row wins), for default and supplied edges, weighted and "
+    "unweighted; what is written is the mean along the sample axis of x[digitize(ip, edges) == i]; the default edges "
+    "are define_hist_bins(0, 2pi, nbins); only an empty bin is skipped; the result is nbins x x.shape[1:]. R3 also: "
+    "the cycles aligned are the supplied ones or the unmasked all-cycles labelling, and a cycle is skipped only when "
+    "another one was requested or it has no samples. R1 also: every path through the per-label loop writes its slot "
+    "once, by the route (vector / tuple of vectors) fitting the values. R5: get_cycle_stat is the support routine on "
+    "the object's own labels. R6 iterator contract: the (index, samples) pairs phase_align iterates over are (i, "
+    "map_cycle_to_samples(labels, i)) for i in range(max(label) + 1) - _ensure_cycle_inputs, Cycles.iterate, "
+    "IterateCycles.__init__ / __iter__ / niters / iterate_cycles are checked link by link. L1: library attributes on "
+    "these paths resolve. Not decided: interpolation error for non-linear profiles.")
 RULE_TEXT = "one obligation per routine clause; the bin-cover rule enumerates nbins in {2,3,5} x all classes"
-FLOORS = {'C14.R1': 3, 'C14.R2': 2, 'C14.R3': 4, 'C14.R4': 2, 'C14.R5': 1}
+FLOORS = {'C14.R1': 3, 'C14.R2': 2, 'C14.R3': 4, 'C14.R4': 2, 'C14.R5': 1, 'C14.R6': 5}
 PINNED_EXPECT = [('C14.R4', 'emd.cycles.bin_by_phase', 'every allocated phase bin'),
                  ('L1', 'emd.support.ensure_equal_dims', 'numpy.alltrue')]
 
@@ -39,6 +47,7 @@ def run(ctx):
     ctx.rule(rule_project, 'C14.R2')
     ctx.rule(rule_phase_align, 'C14.R3')
     ctx.rule(rule_align_selection, 'C14.R3')
+    ctx.rule(rule_iterator_contract, 'C14.R6')
     ctx.rule(rule_stat_caller, 'C14.R5')
     ctx.rule(rule_bin_cover, 'C14.R4')
     l1.rule_lib_attrs(ctx, 'L1', ['emd.cycles.phase_align', 'emd.cycles.bin_by_phase', 'emd.cycles.get_cycle_stat'],
@@ -103,6 +112,47 @@ def rule_stat(ctx, rid):
             if not okarg:
                 bad = 'the reducer does not receive exactly the value vector(s) restricted to the label lookup: %s' \
                     % show(val)[:100]
+    # no path through the loop body may leave the slot of its label unwritten, and the route taken (one value vector /
+    # a tuple of vectors) must fit the test that selected it
+    c_all = 'every path through the per-label loop writes the slot of its label exactly once, by the route fitting the values'
+    skip = None
+    nb = 0
+    from .c15 import _tuple_route
+    vals_t0 = S(fi.params[0])
+    for e in exits:
+        if e.kind != 'return' or not (e.value[0] == 's' and '@F' in e.value[1]):
+            continue
+        outn = e.value[1].split('@')[0]
+        for ls in e.state.loops:
+            if ls.kind != 'for':
+                continue
+            for kind, b in ls.body_states:
+                nb += 1
+                sets = [f for f in b.effects if f[0] == 'setitem' and f[5] == outn]
+                if len(sets) != 1:
+                    skip = (b, 'a path through the loop %s (conditions: %s)' % (
+                        'leaves the slot unwritten: the statistic of that cycle keeps the initial value' if not sets
+                        else 'writes the slot %d times' % len(sets),
+                        '; '.join('%s=%s' % (show(cn)[:50], t) for cn, t, _ in b.conds[-2:]) or 'none'))
+                    break
+                tr = _tuple_route(b.conds, vals_t0)
+                val = sets[0][3]
+                starred = val[0] in ('call', 'callv') and len(val[2]) == 1 and val[2][0][0] == 'starred'
+                if tr is True and not starred and val[0] in ('call', 'callv'):
+                    skip = (b, 'a tuple of value vectors is indexed as if it were one vector')
+                if tr is False and starred:
+                    skip = (b, 'a single value vector is unpacked element by element as if it were a tuple of vectors')
+                if any(cd[0] == 'call' and cd[1] == 'builtins.isinstance' and len(cd[2]) == 2 and cd[2][1] == vals_t0
+                       for cd, t_, ln in b.conds):
+                    skip = (b, 'isinstance is asked whether a type is an instance of the values (arguments swapped)')
+            if skip:
+                break
+        if skip:
+            break
+    if skip:
+        ctx.violation(rid, fi, c_all, skip[1], path=trace_tail(skip[0], 6))
+    elif nb:
+        ctx.passed(rid, fi, c_all, '%d loop-body paths' % nb)
     # every way of returning must go through that per-label loop: a shortcut that fills the result differently
     # (vectorised fast path, early return) is not "the function applied to exactly the samples of each label"
     c0 = 'every return path delivers the slot-by-slot filled result'
@@ -354,6 +404,197 @@ def rule_align_selection(ctx, rid):
                 return
     ctx.passed(rid, fi, c5, '%d returning paths' % n5)
     ctx.passed(rid, fi, c6, '%d loop-body paths' % n6)
+
+
+def rule_iterator_contract(ctx, rid):
+    """phase_align (and the control-point routines) walk the cycles with `for index, samples in cycles`.  The rules
+    above take that pair to be (cycle i, samples labelled i) for i = 0..max(label); this rule checks the objects that
+    provide it: _ensure_cycle_inputs wraps a label vector in IterateCycles(cycle_vect=that vector), a Cycles object
+    hands out iterate(), IterateCycles.__iter__ serves 'cycles' with iterate_cycles, which yields (i,
+    map_cycle_to_samples(labels, i)) for i in range(max(label) + 1), and niters is that same count (the number of
+    columns phase_align allocates)."""
+    P = ctx.P
+    IT = 'emd.cycles.IterateCycles'
+    sa = lambda n: ('attr', S('self'), n)       # noqa: E731
+    # ---- _ensure_cycle_inputs
+    fi = P.func('emd.cycles._ensure_cycle_inputs')
+    c = 'a label vector is wrapped in an iterator over that same vector; a Cycles object hands out its own iterator'
+    bad = None
+    seen = set()
+    for e in Evaluator(P).run(fi):
+        ctx.paths += 1
+        if e.kind != 'return':
+            continue
+        kind = None
+        for cd, tr, ln in e.state.conds:
+            if cd[0] == 'call' and cd[1] == 'builtins.isinstance' and tr and len(cd[2]) == 2 and cd[2][0] == S('invar'):
+                kind = cd[2][1]
+        v = e.value
+        if kind == ('ref', 'numpy.ndarray'):
+            seen.add('vector')
+            if not (v[0] == 'call' and v[1] == IT):
+                bad = 'a label vector is turned into %s' % show(v)[:60]
+                break
+            kw = dict(v[3])
+            cv = kw.get('cycle_vect', NONE)
+            ok = cv == S('invar') or (cv[0] == 'call' and cv[1] in ('emd.support.ensure_vector', 'emd.support.ensure_1d_with_singleton')
+                                      and dict(cv[3]).get('to_check') in (('list', (S('invar'),)), ('tuple', (S('invar'),))))
+            if not ok:
+                bad = 'the iterator is built over %s, not over the supplied label vector' % show(cv)[:60]
+                break
+            if kw.get('iter_through', C('cycles')) != C('cycles') or kw.get('mode', C('cycle')) != C('cycle') \
+                    or kw.get('valids', NONE) != NONE:
+                bad = 'the iterator over a plain label vector is configured with %s' % ', '.join(
+                    '%s=%s' % (k, show(kw[k])) for k in ('iter_through', 'mode', 'valids') if k in kw)
+                break
+        elif kind == ('ref', 'emd.cycles.Cycles'):
+            seen.add('object')
+            if not (v[0] == 'meth' and v[1] == 'iterate' and v[2] == S('invar') and not v[3] and not v[4]):
+                if not (v[0] == 'call' and v[1] == 'emd.cycles.Cycles.iterate'):
+                    bad = 'a Cycles object is turned into %s' % show(v)[:60]
+                    break
+        elif kind == ('ref', IT):
+            seen.add('iterator')
+            if v != S('invar'):
+                bad = 'an iterator is replaced by %s' % show(v)[:60]
+                break
+    if bad:
+        ctx.violation(rid, fi, c, bad)
+    elif seen != {'vector', 'object', 'iterator'}:
+        ctx.undecided(rid, fi, c, 'input kinds recognised: %s' % sorted(seen))
+    else:
+        ctx.passed(rid, fi, c, '3 input kinds')
+    # ---- Cycles.iterate: built over the object's own vectors
+    fi = P.func('emd.cycles.Cycles.iterate')
+    c = "the container's iterator runs over the container's own label vector and phase"
+    bad = None
+    n = 0
+    for e in Evaluator(P).run(fi):
+        if e.kind != 'return':
+            continue
+        n += 1
+        v = e.value
+        if not (v[0] == 'call' and v[1] == IT):
+            bad = 'returns %s' % show(v)[:60]
+            break
+        kw = dict(v[3])
+        for k in ('cycle_vect', 'subset_vect', 'chain_vect', 'phase'):
+            if kw.get(k) != sa(k):
+                bad = '%s=%s' % (k, show(kw.get(k, NONE))[:40])
+        if kw.get('iter_through', C('cycles')) != S('through') or kw.get('mode', C('cycle')) != S('mode'):
+            bad = 'through / mode are not forwarded: %s / %s' % (show(kw.get('iter_through', NONE)), show(kw.get('mode', NONE)))
+    if bad:
+        ctx.violation(rid, fi, c, bad)
+    elif n == 0:
+        ctx.undecided(rid, fi, c, 'no return')
+    else:
+        ctx.passed(rid, fi, c, '%d return paths' % n)
+    # ---- IterateCycles: constructor state, dispatch, generator, count
+    init = P.func(IT + '.__init__')
+    c = 'the iterator keeps the label vector it was given and counts max(label) + 1 cycles'
+    bad = None
+    n = 0
+    for e in Evaluator(P).run(init):
+        if e.kind != 'return':
+            continue
+        if _cond_is(e, ('cmp', 'isnot', S('cycle_vect'), NONE)) is False:
+            continue
+        n += 1
+        env = e.state.env
+        if env.get('self.cycle_vect') != S('cycle_vect'):
+            bad = 'self.cycle_vect = %s' % show(env.get('self.cycle_vect', NONE))[:40]
+        nc = env.get('self.ncycles')
+        oks = [('bin', '+', ('meth', 'max', S('cycle_vect'), (), ()), C(1)), ('bin', '+', ('call', 'numpy.max', (S('cycle_vect'),), ()), C(1))]
+        if nc not in oks:
+            bad = 'self.ncycles = %s' % show(nc if nc is not None else NONE)[:50]
+        if _cond_is(e, ('cmp', 'is', S('valids'), NONE)) is True and env.get('self.iter_through') != S('iter_through'):
+            bad = 'without a selection the iterator walks %s' % show(env.get('self.iter_through', NONE))
+        if env.get('self.mode') != S('mode'):
+            bad = 'self.mode = %s' % show(env.get('self.mode', NONE))
+        if bad:
+            break
+    if bad:
+        ctx.violation(rid, init, c, bad)
+    elif n == 0:
+        ctx.undecided(rid, init, c, 'no constructor path with a label vector')
+    else:
+        ctx.passed(rid, init, c, '%d constructor paths' % n)
+    it = P.func(IT + '.__iter__')
+    c = "iteration through 'cycles' is served by iterate_cycles, whose count is niters"
+    bad = None
+    ok = False
+    for e in Evaluator(P).run(it):
+        if e.kind == 'return' and _cond_is(e, ('cmp', '==', sa('iter_through'), C('cycles'))) is True:
+            v = e.value
+            if (v[0] == 'call' and v[1] == IT + '.iterate_cycles') or (v[0] == 'meth' and v[1] == 'iterate_cycles'):
+                ok = True
+            else:
+                bad = "'cycles' is served by %s" % show(v)[:50]
+    ni = P.func(IT + '.niters')
+    okn = False
+    for e in Evaluator(P).run(ni):
+        if e.kind == 'return' and _cond_is(e, ('cmp', '==', sa('iter_through'), C('cycles'))) is True:
+            v = e.value
+            if v in (('bin', '+', ('meth', 'max', sa('cycle_vect'), (), ()), C(1)), sa('ncycles'),
+                     ('bin', '+', ('call', 'numpy.max', (sa('cycle_vect'),), ()), C(1))):
+                okn = True
+            else:
+                bad = "niters for 'cycles' is %s: phase_align allocates that many columns" % show(v)[:50]
+    if bad:
+        ctx.violation(rid, it, c, bad)
+    elif not (ok and okn):
+        ctx.undecided(rid, it, c, 'dispatch found: %s, count found: %s' % (ok, okn))
+    else:
+        ctx.passed(rid, it, c)
+    gen = P.func(IT + '.iterate_cycles')
+    c = "in mode 'cycle' the generator yields (i, map_cycle_to_samples(labels, i)) for i in range(ncycles), every i once"
+    bad = None
+    n = 0
+    for e in Evaluator(P).run(gen, args={}, context=None):
+        if e.kind != 'return':
+            continue
+        fors = [ls for ls in e.state.loops if ls.kind == 'for']
+        if len(fors) != 1:
+            ctx.undecided(rid, gen, c, '%d loops' % len(fors))
+            return
+        ls = fors[0]
+        itt = ls.iter_term
+        if itt not in (('call', 'builtins.range', (sa('ncycles'),), ()),
+                       ('call', 'builtins.range', (('bin', '+', ('meth', 'max', sa('cycle_vect'), (), ()), C(1)),), ())):
+            bad = 'the generator walks %s' % show(itt)[:50]
+            break
+        for kind, b in ls.body_states:
+            md = None
+            for cd, tr, ln in b.conds:
+                if cd == ('cmp', '==', sa('mode'), C('cycle')):
+                    md = tr
+            if md is not True:
+                continue
+            n += 1
+            ys = [f for f in b.effects if f[0] == 'yield']
+            if len(ys) != 1:
+                bad = "mode 'cycle': %d yields on one path through the loop" % len(ys)
+                break
+            y = ys[0][1]
+            want = ('call', 'emd._cycles_support.map_cycle_to_samples', (), (('cycle_vect', sa('cycle_vect')), ('ii', ls.var)))
+            if not (y[0] == 'tuple' and len(y[1]) == 2 and y[1][0] == ls.var and y[1][1] == want):
+                bad = "mode 'cycle' yields %s" % show(y)[:80]
+                break
+        if bad:
+            break
+    if bad:
+        ctx.violation(rid, gen, c, bad)
+    elif n == 0:
+        ctx.undecided(rid, gen, c, "no path for mode 'cycle'")
+    else:
+        ctx.passed(rid, gen, c, '%d loop path(s)' % n)
+
+
+def _cond_is(e, cond):
+    for cd, tr, ln in e.state.conds:
+        if cd == cond:
+            return tr
+    return None
 
 
 def _mean_axis0(t, allow_weights=False):
